@@ -23,6 +23,8 @@ C20 — kernel-checked witnesses.
   of five labels that are only reached backwards needs four — a latent false alarm of the check, not a
   defect of the compiler.  `checkBody` now iterates to a fixpoint and is proved complete
   (`C20_checkBody_complete`); the witness shows the old verdict and the new one.
+* `C20_treeDistinct_needed`: the one hypothesis of the label-height theorems beyond typing and scope —
+  the parser's labels of the tree are pairwise distinct — cannot be dropped.
 * `C20_fixed_*`: the two defects repaired by /repo commit 5874e28, replayed on the model: with the
   old arms the effect is wrong, with the current arms it is right.
 -/
@@ -234,6 +236,36 @@ theorem C20_checker_incomplete_repaired :
       (some H.zero)) = false ∧
     isErr (verify (inferred chainSteps) chainSteps (some H.zero)) = false := by
   decide
+
+/-! ### the hypothesis `treeDistinct` of the label-height theorems is needed -/
+
+/-- `for (;;) break;` with the labels `.L..1` (break) and `.L..2` (continue) -/
+def dupLoop : Node := .for_ i0 .null .null .null (.goto_ i0 none (some ".L..1")) (some ".L..1") (some ".L..2")
+
+/-- a tree `parse.c` never builds — two loops carry the same labels, one of them inside a statement
+    expression that is evaluated under a pending push: `for (;;) break; n = ({ for (;;) break; 2; });` -/
+def dupBody : Node :=
+  .block i0 (.cons dupLoop (.cons
+    (.exprStmt i0 (.assign iI (.var iI (some vN))
+      (.stmtExpr iI (.cons dupLoop (.cons (.exprStmt i0 (.num iI 2 0 0 0 0)) .nil))))) .nil))
+
+/-- The tree is well typed and inside the scope `flowFn` (every jump targets a label of its own
+    region), only `treeDistinct` fails — and the conclusion of `C20_function_flow_partial` fails with
+    it: the label `.L..1` is reached at rsp 0 and at rsp −8, so no labelling exists.  (The inferred
+    labelling is as good as any: `verifyL_inferred`.) -/
+theorem C20_treeDistinct_needed :
+    typedS leakEnv dupBody = true ∧ flowFn leakEnv dupBody = true ∧ treeDistinct dupBody = false ∧
+    ∀ s' ls, genStmt leakEnv dupBody {} = .ok ((), s', ls) → ¬ FnBalanced ls := by
+  refine ⟨by decide, by decide, by decide, ?_⟩
+  intro s' ls hg hb
+  obtain ⟨lab, hv⟩ := hb
+  have h1 := verifyL_inferred (steps ls) lab hv
+  have hc : (outOf (genStmt leakEnv dupBody {})).map
+      (fun ls => isErr (verifyL (inferred (steps ls)) (steps ls) (some H.zero))) = some true := by decide
+  rw [hg] at hc
+  simp only [outOf, Option.map_some, Option.some.injEq] at hc
+  rw [h1] at hc
+  cases hc
 
 /-! ### repaired by 5874e28 ("keep the x87 register stack balanced") -/
 
